@@ -41,6 +41,9 @@ SOURCES = [
     'def nested { splitters: uid if route >= 3 { if plan in ("pro", "max") { return "n1" weighted 1, "n2" weighted 1 } else if not route == 5 { return "n3" weighted 2, "n4" weighted 1 } } else { return /* c */ "n5" weighted 1, "n6" weighted 1 } }',
     '/* multi\n line\n comment */ def exp { splitters: uid return "X" weighted 9, "Y" weighted 1 } // trailing',
 ]
+INVALID = ['def exp { splitters: uid if plan = "pro" { return "A" weighted 1 } else { return "B" weighted 1 } }',
+           "def chain { splitters: uid /* long parse */ " + _chain(40) + " , }",
+           'def exp { splitters: uid return "A" weighted 1, "B" weighted 1 } def again { return "x" weighted 1 }']
 PROBES = [{"uid": "u%d" % i, "plan": p, "route": r} for i, (p, r) in enumerate([("pro", 0), ("free", 1), ("max", 3), ("free", 5),
                                                                                ("pro", 7), ("x", 39), ("pro", 40), ("free", 2)])]
 _SEQ = {}
@@ -64,7 +67,11 @@ def cases(draw, max_threads=8):
     ops = []
     recompiled = {}
     for _ in range(n):
-        k = draw(st.sampled_from(["construct", "construct", "call", "call", "recompile"]))
+        k = draw(st.sampled_from(["construct", "construct", "call", "call", "recompile", "recompile_invalid"]))
+        if k == "recompile_invalid":
+            # several threads may hand the SAME invalid text to one evaluator: every one of them must be refused
+            ops.append({"k": "recompile_invalid", "ev": draw(st.integers(0, nshared - 1)), "text": draw(st.integers(0, len(INVALID) - 1))})
+            continue
         if k == "construct":
             ops.append({"k": "construct", "src": draw(st.integers(0, len(SOURCES) - 1))})
         elif k == "call":
@@ -86,6 +93,14 @@ def _build_ops(case, shared_evs, E):
     for op in case["ops"]:
         if op["k"] == "construct":
             fns.append(lambda op=op: E(SOURCES[op["src"]]))
+        elif op["k"] == "recompile_invalid":
+            def h(op=op):
+                try:
+                    shared_evs[op["ev"]].recompile(INVALID[op["text"]])
+                except Exception as e:
+                    return ("refused", type(e).__name__)
+                return ("accepted",)
+            fns.append(h)
         elif op["k"] == "call":
             def f(op=op):
                 return [sut.call(shared_evs[op["ev"]], PROBES[op["probe"]]) for _ in range(op["times"])]
@@ -111,7 +126,11 @@ def _judge_results(case, results, shared_evs, how):
         if r[0] == "exc":
             viol.append("%s: thread %d (%r) raised %s: %s" % (how, i, op, r[1], r[2]))
             continue
-        if op["k"] == "construct":
+        if op["k"] == "recompile_invalid":
+            if r[1][0] != "refused":
+                viol.append("%s: thread %d handed the invalid text %r to recompile() of shared evaluator %d and it returned without "
+                            "raising" % (how, i, INVALID[op["text"]][:70], op["ev"]))
+        elif op["k"] == "construct":
             got = [sut.call(r[1], p) for p in PROBES]
             if got != _seq(op["src"]):
                 j = next(j for j in range(len(PROBES)) if got[j] != _seq(op["src"])[j])
@@ -206,6 +225,9 @@ def sweep_pairs(ctx):
     # two threads recompile the same evaluator to the same new text, each then calls it
     for old, new in [(0, 2), (1, 4), (5, 0)]:
         pairs.append(([old], {"k": "recompile", "ev": 0, "src": new, "probe": 1}, {"k": "recompile", "ev": 0, "src": new, "probe": 4}))
+    # two threads hand the same invalid text to the same evaluator
+    for old, t in [(0, 0), (2, 1), (1, 2)]:
+        pairs.append(([old], {"k": "recompile_invalid", "ev": 0, "text": t}, {"k": "recompile_invalid", "ev": 0, "text": t}))
     # a recompile pre-empted by an unrelated construction, and vice versa
     pairs.append(([0], {"k": "recompile", "ev": 0, "src": 1}, {"k": "construct", "src": 4}))
     pairs.append(([1], {"k": "construct", "src": 0}, {"k": "recompile", "ev": 0, "src": 5}))
@@ -236,7 +258,7 @@ def call_call_cases(ctx):
 def sweep_cases(ctx):
     pairs = sweep_pairs(ctx)
     if ctx.quick:
-        pairs = [pairs[i] for i in (0, 4, 8, 11, 13, 16, 20) if i < len(pairs)]
+        pairs = [pairs[i] for i in (0, 4, 8, 11, 13, 16, 19, 23) if i < len(pairs)]
     for shared, a, b in pairs:
         base = {"shared": shared, "ops": [a, b], "cycle": False}
         total = _lines_alone(dict(base, schedule=[]))
